@@ -149,8 +149,48 @@ Definition run_all (o : oid) (n : nid) (nu : node_update) (now : Z) : M unit :=
       end
     end).
 
-(* Node::run_on_update_handlers (node.rs:931) *)
+(* handlers attached to the node itself (Incr::on_update, incr.rs:402; Node::add_on_update_handler, node.rs:183):
+   the same OnUpdateHandler, but the user's closure also hears Unnecessary *)
+Definition add_on_update_handler (n : nid) (h : hfn) : M unit :=
+  now <- gets stab_num ;;
+  upd_node n (fun x => x <| n_num_handlers := n_num_handlers x + 1 |>
+                         <| n_handlers := n_handlers x ++ [Handler 0 h PNever now] |>).
+
+Definition node_really_run (n : nid) (hix : nat) (h : handler) (nu : node_update) : M unit :=
+  upd_node n (fun x => x <| n_handlers :=
+     alter (fun h => h <| hd_prev := match nu with
+                                     | NUChanged => PChanged | NUNecessary => PNecessary
+                                     | NUInvalidated => PInvalidated | NUUnnecessary => PUnnecessary end |>)
+           hix (n_handlers x) |>) ;;;
+  v <- value_of n ;;
+  arg <- match nu with
+         | NUChanged | NUNecessary =>
+             match v with Some v => ret (Some v) | None => panic (PUnwrapNone 412) end
+         | NUInvalidated | NUUnnecessary => ret None
+         end ;;
+  user_call ;;;
+  emit (EvNodeUpd n (Z.of_nat hix) (h_id (hd_fn h)) nu arg) ;;;
+  run_effects 0 (default VUnit arg) (h_effs (hd_fn h)).
+
+Definition node_handler_run (n : nid) (hix : nat) (h : handler) (nu : node_update) (now : Z) : M unit :=
+  if bool_decide (hd_created_at h < now) then
+    match hd_prev h, nu with
+    | PInvalidated, _ => ret tt
+    | PChanged, NUNecessary | PNecessary, NUNecessary | PUnnecessary, NUUnnecessary => ret tt
+    | PNever, NUChanged | PUnnecessary, NUChanged => node_really_run n hix h NUNecessary
+    | _, nu => node_really_run n hix h nu
+    end
+  else ret tt.
+
+(* Node::run_on_update_handlers (node.rs:958): the node's own handlers, then every observer's *)
 Definition run_on_update_handlers (n : nid) (nu : node_update) (now : Z) : M unit :=
+  x <- get_node n ;;
+  forM_ (seq 0 (length (n_handlers x))) (fun ix =>
+    x <- get_node n ;;
+    match n_handlers x !! ix with
+    | None => ret tt
+    | Some h => node_handler_run n ix h nu now
+    end) ;;;
   x <- get_node n ;;
   forM_ (n_observers x) (fun o =>
     ob <- get_obs o ;; if o_live ob then run_all o n nu now else ret tt).
@@ -276,6 +316,7 @@ Inductive op :=
   | OpDisallow (o : oid)
   | OpRead (o : oid)
   | OpSubscribe (o : oid) (h : hfn)
+  | OpOnUpdate (n : hnode) (h : hfn)
   | OpUnsubscribe (o : oid) (sub : nat)        (* sub = index into the table of subscription tokens *)
   | OpStateUnsubscribe (sub : nat)
   | OpSet (x : vid) (v : Z)
@@ -444,6 +485,7 @@ Definition step (fuel : nat) (st : istate) (o : op) : M (istate * out) :=
       ret (st, OutUnit)
   | OpDisallow o => disallow_future_use o ;;; ret (st, OutUnit)
   | OpRead o => r <- observer_read o ;; ret (st, OutRead r)
+  | OpOnUpdate h hf => n <- hnode_get st h ;; add_on_update_handler n hf ;;; ret (st, OutUnit)
   | OpSubscribe o h =>
       r <- subscribe o h ;;
       ret (match r with
